@@ -327,7 +327,9 @@ def run_config(cfg, res):
     for i in range(2 if cfg['tier'] == 'quick' else 8):
       ops, ndr = gen_history(r, ticks=True)
       res.count('histories_with_instrumentation_ticks')
-      explore(world, res, ops, ndr, r, cfg['tier'], oracle, False, cfg['strategy'] + '/ticks')
+      # (schedules with a tick are long: one preemption at every point plus random schedules in both tiers; thorough runs
+      # more histories)
+      explore(world, res, ops, ndr, r, 'quick', oracle, False, cfg['strategy'] + '/ticks')
     return
   world = cachesim.World(ns)
   r = gen.rng(cfg['seed'], 'C02', cfg['name'])
